@@ -478,18 +478,49 @@ theorem Chain.allDone_total {s : Chain α} (hi : s.Inv) (h : s.allDone = true) :
 
 /-! ### the driver's executor takes steps of the system -/
 
-theorem chainTry_step {c : Cfg} {s s' : Chain α} {procs n k cnt i : Nat}
-    (h : chainTry c s procs n k cnt i = some s') : ∃ j, s.step c j n k = some s' := by
-  induction cnt generalizing i with
-  | zero => simp [chainTry] at h
-  | succ cnt ih =>
-    unfold chainTry at h
+theorem chainScan_step {c : Cfg} {s s' : Chain α} {n k j : Nat}
+    (h : chainScan c s n k j = some s') : ∃ i, s.step c i n k = some s' := by
+  induction j with
+  | zero => simp [chainScan] at h
+  | succ j ih =>
+    unfold chainScan at h
     split at h
     next s1 hs =>
       simp only [Option.some.injEq] at h
       subst h
       exact ⟨_, hs⟩
     next => exact ih h
+
+theorem chainScan_none {c : Cfg} {s : Chain α} {n k j : Nat}
+    (h : chainScan c s n k j = none) : ∀ i, i < j → s.step c i n k = none := by
+  induction j with
+  | zero => intro i hi; omega
+  | succ j ih =>
+    unfold chainScan at h
+    split at h
+    next => simp at h
+    next hs =>
+      intro i hi
+      by_cases e : i = j
+      · subst e; exact hs
+      · exact ih h i (by omega)
+
+theorem chainPick_step {c : Cfg} {s s' : Chain α} {n k i : Nat}
+    (h : chainPick c s n k i = some s') : ∃ j, s.step c j n k = some s' := by
+  unfold chainPick at h
+  split at h
+  next s1 hs =>
+    simp only [Option.some.injEq] at h
+    subst h
+    exact ⟨_, hs⟩
+  next => exact chainScan_step h
+
+theorem chainPick_none {c : Cfg} {s : Chain α} {n k i : Nat}
+    (h : chainPick c s n k i = none) : ∀ j, j < s.procs → s.step c j n k = none := by
+  unfold chainPick at h
+  split at h
+  next => simp at h
+  next => exact chainScan_none h
 
 theorem chainRun_reach {c : Cfg} {m : Nat} {pre post : List α} {n k : Nat} (hn : 1 ≤ n) (hk : 1 ≤ k)
     (fuel x : Nat) (s : Chain α) (hr : CReach c m pre post s) : CReach c m pre post (chainRun c n k fuel x s) := by
@@ -500,7 +531,7 @@ theorem chainRun_reach {c : Cfg} {m : Nat} {pre post : List α} {n k : Nat} (hn 
     simp only
     split
     next s' hs =>
-      obtain ⟨j, hj⟩ := chainTry_step hs
+      obtain ⟨j, hj⟩ := chainPick_step hs
       exact ih _ _ (CReach.step j n k hr hn hk hj)
     next => exact hr
 
